@@ -11,7 +11,8 @@ byte-wise System.parse exactly as the connection handler does."""
 from props import usd_common as UC
 
 PART = dict(name='c02_as', simulator='active_surface', ready=True,
-            coq_targets=['Properties/C02_as.vo', 'Corr/UsdCorr.vo'])
+            coq_targets=['Properties/C02_as.vo', 'Properties/C02_as_bytes.vo', 'Corr/UsdCorr.vo',
+                         'Corr/UsdBytesCorr.vo'])
 
 GETTERS = (0x10, 0x12, 0x13, 0x14)
 NPAYLOAD = {0x10: 1, 0x12: 4, 0x13: 3, 0x14: 1}
@@ -115,6 +116,61 @@ def correspondence(ctx):
             ctx.nontriv(('c02_as', tuple(idxs), c0, tuple(map(repr, ev))))
     ctx.sample(terms[0][:500])
     ctx.run_cases('c02_as_queries', IMPORTS, 'line_case', 'lok', terms, show='lshow', shard=ctx.n(8, 25))
+    byte_correspondence(ctx)
+
+
+# ---------------------------------------------------------------------------------------------
+# byte level: any sequence of bytes through the real System.parse, then resynchronisation, then
+# the queries
+
+def coq_aout(o):
+    if o[0] == 'R':
+        return '(OReply %s)' % UC.zlist(o[1])
+    return {'F': 'OFalse', 'T': 'OTrue', 'V': 'OValueError', 'E': 'OException', 'B': 'OException'}[o[0]]
+
+
+def byte_history(rng, line, tags=None):
+    """garbage / traffic chunks, the resynchronisation sequence, then a sweep of queries"""
+    bs = []
+    for _ in range(rng.randrange(1, 7)):
+        tag, chunk = UC.garbage_chunk(rng, line)
+        if tags is not None:
+            tags.append(tag)
+        bs += chunk
+    return bs
+
+
+def byte_correspondence(ctx):
+    rng = ctx.rng
+    terms = []
+    with UC.implementation() as impl:
+        for _ in range(ctx.n(40, 600)):
+            n = rng.choice([1, 2, 3, 4])
+            first = rng.randrange(0, 32 - n + 1)
+            idxs = list(range(first, first + n))
+            line = UC.Line(impl, idxs, 1024)
+            tags = []
+            bs = byte_history(rng, line, tags)
+            if rng.random() < 0.8:
+                bs += UC.resync_bytes(rng)
+                for _ in range(rng.randrange(1, 5)):
+                    bs += UC.uni_frame(rng.choice([0xFA, 0xFC]), rng.choice(idxs), rng.choice(GETTERS), [])
+                tags.append('resync+queries')
+            outs = []
+            for b in bs:
+                o = line.parse_byte(b)
+                outs.append(o)
+                if o[0] in ('E', 'B'):
+                    break
+            bs = bs[:len(outs)]
+            terms.append('(%s, %s, %s, [%s], [%s])' % (
+                UC.zlit(first), UC.zlist(idxs), UC.zlist(bs), '; '.join(coq_aout(o) for o in outs),
+                '; '.join(UC.coq_snapshot(x) for x in line.snapshots())))
+            for t in tags:
+                ctx.count('c02_as:bytes:' + t)
+            ctx.nontriv(('c02_as_bytes', first, n, tuple(bs)))
+    ctx.run_cases('c02_as_bytes', 'From DS Require Import Model.UsdModel Model.AslLine Corr.UsdBytesCorr.',
+                  'bytes_case', 'bok', terms, show='bshow', shard=ctx.n(10, 40))
 
 
 # ---------------------------------------------------------------------------------------------
@@ -172,6 +228,81 @@ def probe_all(line, j, failures):
     return n
 
 
+def query_after_bytes(line, j, code, start, failures, witness):
+    """C02_as_bytes_then_query on the real System.parse: the four bytes of a query sent to an idle
+    parser give True, True, True and then exactly one well-formed reply (True in silent mode)"""
+    idx = line.idxs[j]
+    before = line.snapshots()
+    outs = [line.parse_byte(b) for b in UC.uni_frame(start, idx, code, [])]
+    probe = dict(unit=j, code=code, start=start, position=before[j]['current_position'], outcomes=repr(outs))
+    if line.snapshots() != before:
+        failures.append(('active_surface_query_changed_state', 'query %#x changed the state of the line' % code,
+                         probe))
+    if outs[:3] != [('T',)] * 3:
+        failures.append(('active_surface_query_not_framed',
+                         'query %#x to unit %d after resynchronisation: parse outcomes %r' % (code, idx, outs), probe))
+        return
+    if before[j]['delay_multiplier'] == 255:
+        if outs[3] != ('T',):
+            failures.append(('active_surface_silent_mode_answered',
+                             'unit in silent mode (delay 255): last outcome %r' % (outs[3],), probe))
+        return
+    if outs[3][0] != 'R':
+        failures.append(('active_surface_query_unanswered',
+                         'query %#x (start %#x) to unit %d at position %d: outcomes %r'
+                         % (code, start, idx, before[j]['current_position'], outs), probe))
+        return
+    bad, payload = UC.check_answer(outs[3][1], start, idx, NPAYLOAD[code])
+    if bad:
+        failures.append(('active_surface_query_malformed_reply',
+                         'query %#x (start %#x) to unit %d: %s: %r' % (code, start, idx, bad, outs[3][1]), probe))
+    elif code == 0x12 and payload != UC.be_signed(before[j]['current_position'], 4):
+        failures.append(('active_surface_query_wrong_value',
+                         'get_position of unit %d: payload %r at position %d'
+                         % (idx, payload, before[j]['current_position']), probe))
+
+
+def byte_oracle(ctx, impl, rng, reported):
+    """byte histories (garbage of every shape, traffic, time steps), the resynchronisation sequence,
+    then the query sweep.  returns the number of queries sent"""
+    n = rng.choice([1, 2, 3, 3, 4])
+    first = rng.randrange(0, 32 - n + 1)
+    idxs = list(range(first, first + n))
+    clock0 = rng.randrange(1, 1 << 24)
+    line = UC.Line(impl, idxs, clock0)
+    script = []            # ('bytes', [..]) | ('tick', k)
+    sent = 0
+    for _ in range(rng.randrange(1, 4)):
+        bs = byte_history(rng, line)
+        script.append(('bytes', bs))
+        for b in bs:
+            line.parse_byte(b)
+        if rng.random() < 0.5:
+            k = rng.choice([1, 10, 1000, 65535])
+            script.append(('tick', k))
+            line.tick(k)
+        rs = UC.resync_bytes(rng)
+        script.append(('bytes', rs))
+        for b in rs:
+            line.parse_byte(b)
+        failures = []
+        queries = [(j, code, start) for j in range(n) for code in GETTERS for start in (0xFA, 0xFC)]
+        rng.shuffle(queries)
+        for j, code, start in queries[:rng.choice([2, 4, len(queries)])]:
+            k0 = len(failures)
+            query_after_bytes(line, j, code, start, failures, None)
+            for klass, what, probe in failures[k0:]:
+                if klass not in reported:
+                    reported.add(klass)
+                    ctx.fail(klass, what, dict(part='c02_as', level='bytes', idxs=idxs, clock0=clock0,
+                                               script=[list(x) for x in script], probe=probe))
+            script.append(('bytes', UC.uni_frame(start, idxs[j], code, [])))
+            sent += 1
+        if failures:
+            break
+    return sent
+
+
 def oracle(ctx):
     rng = ctx.rng
     probes = 0
@@ -197,6 +328,23 @@ def oracle(ctx):
                 hook(line, [1, 2, 3], 1024, done)
         for _ in range(ctx.n(60, 1200)):
             run(impl, rng, probe_hook=hook, with_probe_events=False)
+        # byte level: the recorded shapes first, then seeded histories
+        for bs in BYTE_SCRIPTED:
+            line = UC.Line(impl, [1, 2, 3], 1024)
+            for b in bs + [0] * 10:
+                line.parse_byte(b)
+            failures = []
+            for j in range(3):
+                for code in GETTERS:
+                    query_after_bytes(line, j, code, 0xFC, failures, None)
+                    probes += 1
+            for klass, what, probe in failures:
+                if klass not in reported:
+                    reported.add(klass)
+                    ctx.fail(klass, what, dict(part='c02_as', level='bytes', idxs=[1, 2, 3], clock0=1024,
+                                               script=[['bytes', bs + [0] * 10]], probe=probe))
+        for _ in range(ctx.n(250, 5000)):
+            probes += byte_oracle(ctx, impl, rng, reported)
     ctx.oracle_stats['c02_as'] = dict(probes=probes)
     ctx.evaluations += probes
 
@@ -209,10 +357,29 @@ SCRIPTED = [
 ]
 
 
+BYTE_SCRIPTED = [
+    [0xFA, 0x01], [0xFC, 0x1F], [0xFA, 0x00, 0x00], [0xFC, 0x00, 0x08], [0xFA], [0xFC, 0x21],
+    [0xFA, 0xFA, 0xFC, 0x05], [0xFC, 0x21, 0x12, 0x00], [0xFA, 0xE1, 0x30, 1, 2, 3], [0x00, 0x07, 0xFB],
+]
+
+
 def replay(ctx, obj):
     w = obj.get('witness') or {}
     if w.get('part') != 'c02_as':
         return False
+    if w.get('level') == 'bytes':
+        with UC.implementation() as impl:
+            line = UC.Line(impl, w['idxs'], w['clock0'])
+            for kind, x in w['script']:
+                if kind == 'tick':
+                    line.tick(x)
+                else:
+                    for b in x:
+                        line.parse_byte(b)
+            failures = []
+            p = w['probe']
+            query_after_bytes(line, p['unit'], p['code'], p['start'], failures, None)
+        return any(k == obj.get('klass') for k, _, _ in failures)
     with UC.implementation() as impl:
         line = UC.replay_line(impl, w['idxs'], w['clock0'], [tuple(e) for e in w['events']])
         failures = []
